@@ -125,6 +125,14 @@ def run(chk: Check):
     for si in range(n_spaces + max(4, n_spaces // 3)):
         edge = si >= n_spaces      # targeted stream: grids that end one rounding error away from the declared bound
         sp, bounds, prec = gen_edge_space(rng, chk) if edge else gen_space(rng, chk, force_offset=si % 4 == 1)
+        int_hist = (not edge) and si % 4 == 2
+        if int_hist:
+            from black_it.search_space import SearchSpace
+            d = rng.randint(1, 3)
+            prec = [rng.choice([2.5, 1.5, 0.4, 0.5, 1.25]) for _ in range(d)]
+            lo = [float(rng.randint(-5, 5)) for _ in range(d)]
+            bounds = [lo, [l + p * rng.randint(4, 12) for l, p in zip(lo, prec)]]
+            sp = SearchSpace(bounds, prec, False)
         gsets = [{f2h(v) for v in g.tolist()} for g in sp.param_grid]
         for name in NAMES:
             if name in ("GaussianProcessSampler", "CORSSampler") and sp.dims > 4 and chk.tier == "quick":
@@ -134,6 +142,11 @@ def run(chk: Check):
             chk.count("options:" + ("random" if opts is not ch.SMALL_OPTS.get(name) else "default"))
             smp = ch.make_builtin(name, bs, opts, rng.randrange(10 ** 6))
             pts, losses = gen_history(rng, sp, rng.randint(max(bs, 4), 14), top=edge)
+            if int_hist:
+                # an on-grid history whose values are whole numbers, held in an integer-dtype array (a hand-made initial design)
+                whole = [np.array([v for v in g.tolist() if float(v).is_integer()]) for g in sp.param_grid]
+                pts = np.array([[int(rng.choice(w.tolist())) for w in whole] for _ in range(len(pts))], dtype=np.int64)
+                chk.count("history:integer_dtype")
             ncalls = rng.randint(1, 5 if name not in ("GaussianProcessSampler", "CORSSampler") else 2)
             if edge and name == "BestBatchSampler":
                 ncalls = 6
